@@ -659,7 +659,7 @@ def rule_V(ctx, rid='C09.V', only=None):
                 hmm.call('estimate', t, obsarg, mode=modeval, verbose=quiet)
         except orders.Unsupported as ex:
             raise shape_error('HMM.estimate not interpretable: %s' % ex, f.loc())
-        except (orders.Raised, ZeroDivisionError, IndexError, KeyError, TypeError, AttributeError, ValueError, OverflowError) as ex:
+        except orders.PROGRAM_ERRORS as ex:
             found.setdefault((family, 'fails'), ('the decoder runs on every model of the family and asks its models only for states/observations of the right epoch',
                                                  {'model': label, 'log mode': logmode, 'exception': '%s: %s' % (type(ex).__name__, str(ex)[:200])}))
             return None
